@@ -32,6 +32,7 @@ LEVEL_TEXT = (
     "float64 results at 1e-9, anything that passed through float32 likelihoods within the propagated single-precision "
     "budget. Held on what was observed; BAM/VCF reading and the command line are outside this check."
 )
+LEVEL_TEXT += ' Session 3: pooled-sample ploidies 24-256 with 2-3 haplotypes in the function-level cases.'
 LEVEL_NOTE = (
     "Trusts the independent model oracle (vlib/oracles/model.py) and the statistics derived from it here. The program "
     "method is driven with a hand-built LocusPrior and read arrays instead of files; the report-set to field mapping "
